@@ -12,6 +12,7 @@ import (
 
 	"github.com/streamingfast/bstream"
 	"github.com/streamingfast/bstream/forkable"
+	"google.golang.org/protobuf/proto"
 )
 
 type brReq struct {
@@ -51,6 +52,53 @@ type brAnswer struct {
 	Lowest  uint64    `json:"lowest"`
 	Stored  []uint64  `json:"stored"`
 	Panic   bool      `json:"panic"`
+	// W3: first burst item whose block is not the block the hub received under that id (whole message: payload, time), whose
+	// wrapped object is not the object fed with that block, or whose object / cursor disagree; such an item is projected as a
+	// block with a foreign id (a block with the right id and other content is not that block)
+	ObjErr string `json:"obj_err,omitempty"`
+	// W3: the error returned next to the callback: "no source" is `callback not called`, and then an error must be returned;
+	// a served request returns nil
+	ErrIncons string `json:"err_incons,omitempty"`
+}
+
+// W3: the object fed to the Forkable together with block b (what a preprocessor in front of the hub would attach)
+func brToken(id uint64) string { return fmt.Sprintf("obj:%d", id) }
+
+const brForeign = uint64(1) << 62
+
+// W3: projection of the observables brEventsOf does not record
+func brObjCheck(fed map[uint64]fkBlock, blocks []*bstream.PreprocessedBlock, evs []fkEvent) string {
+	first := ""
+	for i, pb := range blocks {
+		why := ""
+		b, known := fed[fkIDNum(pb.Block.Id)]
+		fo, isFO := pb.Obj.(*forkable.ForkableObject)
+		switch {
+		case !known || !proto.Equal(pb.Block, c06PB(b)):
+			why = "block is not the received block (id in full, number, parent, lib, time, payload)"
+		case !isFO:
+			why = "object is not a ForkableObject"
+		case fo.WrappedObject() != interface{}(brToken(b.ID)):
+			why = fmt.Sprintf("wrapped object %v is not the object received with the block", fo.WrappedObject())
+		case fo.Cursor().Step != fo.Step():
+			why = fmt.Sprintf("object step %d, cursor step %d", fo.Step(), fo.Cursor().Step)
+		case fo.FinalBlockHeight() != fo.Cursor().LIB.Num():
+			why = fmt.Sprintf("final block height %d, cursor LIB %d", fo.FinalBlockHeight(), fo.Cursor().LIB.Num())
+		case !c06RefExact(fo.Cursor().Block) || !c06RefExact(fo.Cursor().HeadBlock) || !c06RefExact(fo.Cursor().LIB) || !c06RefExact(fo.ReorgJunctionBlock()):
+			why = "a cursor / junction reference does not carry the full block id"
+		case len(fo.StepBlocks) != 0:
+			why = "a burst item claims to be part of a multi-block step (StepBlocks)"
+		}
+		if why != "" {
+			if i < len(evs) {
+				evs[i].Blk.ID |= brForeign
+			}
+			if first == "" {
+				first = fmt.Sprintf("item %d (step %d, block #%d %s): %s", i, evs[i].Step, pb.Block.Number, pb.Block.Id, why)
+			}
+		}
+	}
+	return first
 }
 type brObs struct {
 	Steps   []fkStepObs `json:"steps"`
@@ -62,8 +110,9 @@ func brEventsOf(blocks []*bstream.PreprocessedBlock) []fkEvent {
 	for _, pb := range blocks {
 		fo := pb.Obj.(*forkable.ForkableObject)
 		c := fo.Cursor()
-		ev := fkEvent{Step: int(fo.Step()), Blk: fkFromPB(pb.Block), CBlk: fkRefOf(c.Block), Head: fkRefOf(c.HeadBlock), Lib: fkRefOf(c.LIB),
-			Idx: fo.StepIndex, Count: fo.StepCount}
+		// W3: the cursor's own step is observed too (fkCursorBlk: a cursor whose step is not the event's has no valid cursor block)
+		ev := fkEvent{Step: int(fo.Step()), Blk: fkFromPB(pb.Block), CBlk: fkCursorBlk(c, fo.Step()), Head: fkRefOf(c.HeadBlock), Lib: fkRefOf(c.LIB),
+			Idx: fo.StepIndex, Count: fo.StepCount, CStep: int(c.Step)}
 		if j := fo.ReorgJunctionBlock(); j != nil {
 			r := fkRefOf(j)
 			ev.Junc = &r
@@ -90,8 +139,10 @@ func brRun(in *brInput) *brObs {
 	sort.SliceStable(reqs, func(i, j int) bool { return reqs[i].M < reqs[j].M })
 	ri := 0
 	universe := map[uint64]bool{}
+	fed := map[uint64]fkBlock{}
 	var uni []uint64
 	for _, b := range in.History {
+		fed[b.ID] = b
 		if !universe[b.ID] && b.ID != 0 {
 			universe[b.ID] = true
 			uni = append(uni, b.ID)
@@ -110,7 +161,8 @@ func brRun(in *brInput) *brObs {
 					st.Result = "panic"
 				}
 			}()
-			if err := p.ProcessBlock(fkPB(b), nil); err != nil {
+			// W3: blocks carry a payload and travel with an object, as behind a preprocessor
+			if err := p.ProcessBlock(c06PB(b), brToken(b.ID)); err != nil {
 				st.Result = "selfparent"
 			}
 		}()
@@ -196,9 +248,11 @@ func brRun(in *brInput) *brObs {
 					cb := func(blocks []*bstream.PreprocessedBlock) {
 						ans.Served = true
 						ans.Events = brEventsOf(blocks)
+						ans.ObjErr = brObjCheck(fed, blocks, ans.Events)
 					}
+					var err error
 					if rq.Kind == "cursor" {
-						_ = p.CallWithBlocksFromCursor(cur, cb)
+						err = p.CallWithBlocksFromCursor(cur, cb)
 					} else {
 						// start: a height between the cursor LIB and the cursor block (+ a little outside)
 						lo := e.Lib.Num
@@ -210,10 +264,16 @@ func brRun(in *brInput) *brObs {
 						ans.Start = start
 						// hub.SourceThroughCursor's shortcut
 						if cur.Block.Num() < start {
-							_ = p.CallWithBlocksFromNum(start, cb, false)
+							err = p.CallWithBlocksFromNum(start, cb, false)
 						} else {
-							_ = p.CallWithBlocksThroughCursor(start, cur, cb)
+							err = p.CallWithBlocksThroughCursor(start, cur, cb)
 						}
+					}
+					// W3: hub.Source*Cursor returns "no source" exactly when an error comes back: a callback call together
+					// with an error (subscriber registered, nil returned), or neither, is an abnormal answer
+					if ans.Served != (err == nil) {
+						ans.ErrIncons = fmt.Sprintf("callback called: %v, error returned: %v", ans.Served, err)
+						ans.Panic = true
 					}
 				}()
 			case "num", "forks":
@@ -234,6 +294,7 @@ func brRun(in *brInput) *brObs {
 						_ = p.CallWithBlocksFromNum(n, func(blocks []*bstream.PreprocessedBlock) {
 							ans.Served = true
 							ans.Events = brEventsOf(blocks)
+							ans.ObjErr = brObjCheck(fed, blocks, ans.Events)
 						}, false)
 					} else {
 						_ = p.CallWithBlocksFromNum(n, func(blocks []*bstream.PreprocessedBlock) {
